@@ -227,6 +227,22 @@ func (ctx *Ctx) parseType(pkg *types.Package, s string) types.Type {
 	tv, err := types.Eval(ctx.fset, pkg, token.NoPos, s)
 	if err == nil && tv.IsType() {
 		t = tv.Type
+	} else if i := strings.Index(s, "."); i > 0 && !strings.ContainsAny(s, "[]* ") {
+		// qualified name: imports are file-scoped, so resolve through the package's import list (or any loaded package)
+		pn, tn := s[:i], s[i+1:]
+		var cands []*types.Package
+		cands = append(cands, pkg.Imports()...)
+		for _, p := range ctx.pkgs {
+			cands = append(cands, p.Types)
+		}
+		for _, ip := range cands {
+			if ip.Name() == pn {
+				if obj, ok := ip.Scope().Lookup(tn).(*types.TypeName); ok {
+					t = obj.Type()
+					break
+				}
+			}
+		}
 	}
 	ctx.mu.Lock()
 	ctx.tcache[k] = t
